@@ -420,6 +420,10 @@ static ares_status_t process_option(ares_sysconfig_t *sysconfig,
   }
 
   if (ares_streq(key, "ndots")) {
+    /* Valid range is 0-15, silently cap like other resolvers do */
+    if (valint > 15) {
+      valint = 15;
+    }
     sysconfig->ndots = valint;
   } else if (ares_streq(key, "retrans") || ares_streq(key, "timeout")) {
     if (valint == 0) {
